@@ -40,6 +40,12 @@ CHECKS.update({
  "C18": ("Coq: decision table of the command-line entry point (exit 0 only if outputs written / valid --validate-only / conversion done; invalid, unsupported option, missing output directory, failed design all non-zero), validation accepts iff all sections valid, upper-casing makes the verdict case-insensitive (for all strings); the real entry point is run as a subprocess on every single-field corruption x flag combination and compared with the model",
          "jsonschema verdicts and the click framework are inputs of the model, not modelled", "6 C18"),
 })
+CHECKS.update({
+ "C12": ("Coq: GHE object as a state machine — after ANY operation history ending in a sizing or a simulation the stored temperatures belong to the current height (induction-free fold lemma), sizing returns the requested height, summary counts, log-row formula on the regenerated BaseGHE.cost; the old step function is kept and refuted; random operation sequences on real GHE objects compared with the machine and with fresh objects; summaries of real runs re-simulated",
+         "summary text/JSON writers observed on real runs only", "6 C12"),
+ "C13": ("Coq: a simulation's stored result depends only on (height, method) for every pair of histories; manager configuration depends on the last setters only, find_design is transparent, the nominal borehole height is not a physical input; histories on real GHE objects and seven metamorphic manager histories compared bit for bit (files included)",
+         "the design result function itself is not computed in Coq; 'same object' = same construction height", "6 C13"),
+})
 NA = {}
 def main():
     checks = []
